@@ -169,12 +169,15 @@ Proof. intros Hle [H1 H2]. split; [exact H1|]. intros j Hj Hl. apply H2; lia. Qe
 Definition resumed : list (nat * nat) := F.fp_resumed (fixed [] pl).
 Definition blk_st (fl : list nat) (b : nat) : status := c_st (pl_cell (F.fp_pln (fixed fl pl)) (OBlock b)).
 Definition seq_st0 (b q : nat) : status := c_st (base0 pl (OSeq b q)).
+(* the plan's status after the repair is finished: Completed / Failed / Stopped means Recovery goes straight to End *)
+Definition pln_st (fl : list nat) : status := c_st (pl_cell (F.fp_pln (fixed fl pl)) OPlan).
 Definition cf (t : status) : Prop := t = Completed \/ t = Failed.
 
 (* what the invariant needs to know about the crash repair of image I *)
 Record repair_sound : Prop := {
   rs_block : forall fl b, block_of sh b <> None -> is_terminal (ist I (OBlock b)) = true -> is_terminal (blk_st fl b) = true;
-  rs_seq : forall fl b q, seq_of sh b q <> None -> is_terminal (blk_st fl b) = false -> ~ In (b, q) resumed ->
+  rs_seq : forall fl b q, is_terminal (pln_st fl) = false ->
+             seq_of sh b q <> None -> is_terminal (blk_st fl b) = false -> ~ In (b, q) resumed ->
              ~ cf (seq_st0 b q) -> open_from b q 0;
   rs_resumed : forall b q, In (b, q) resumed ->
                  ist I (OBlock b) = Running /\ seq_of sh b q <> None /\ open_from b q (first_open pl b q) }.
@@ -183,6 +186,9 @@ Hypothesis RS : repair_sound.
 Definition mem_st (r : rst) (o : obj) : status := mst (mget r) o.
 Definition at_block (r : rst) (b : nat) : Prop := s_ph (r_s r) = PBlocks /\ s_cb (r_s r) = b.
 Definition in_blocks (r : rst) (b : nat) : Prop := at_block r b /\ block_of sh b <> None.
+
+(* the state chain is at End (or past it): no block will be entered any more *)
+Definition ended (r : rst) : Prop := s_ph (r_s r) = PEnd \/ s_ph (r_s r) = PReleased.
 
 Definition seq_ok (r : rst) (b q : nat) (x : sst) : Prop :=
   match x with
@@ -216,7 +222,7 @@ Record Inv (r : rst) : Prop := {
             /\ (forall b q, In (b, q) resumed -> pending r b q \/ cf (mem_st r (OSeq b q)));
   i_run : r_ph r = RRun ->
             (forall b, block_of sh b <> None -> is_terminal (ist I (OBlock b)) = true -> is_terminal (mem_st r (OBlock b)) = true)
-            /\ (forall b q, seq_of sh b q <> None -> is_terminal (mem_st r (OBlock b)) = false ->
+            /\ (forall b q, ~ ended r -> seq_of sh b q <> None -> is_terminal (mem_st r (OBlock b)) = false ->
                   ~ cf (mem_st r (OSeq b q)) -> open_from b q 0)
             /\ (forall b, in_blocks r b -> b_ph (s_b (r_s r)) = BEnter ->
                   is_terminal (mem_st r (OBlock b)) = false /\ b_cause (s_b (r_s r)) = false) }.
@@ -250,7 +256,8 @@ Proof.
     + intros b q Hi. rewrite Hms, Hpe. auto.
   - intro Hrun. rewrite Hph in Hrun. destruct (Hn Hrun) as (H1 & H2 & H3). split; [|split].
     + intros b Hbo Ht. rewrite Hmb. auto.
-    + intros b q Hbo Ht Hc'. rewrite Hmb in Ht. rewrite Hms in Hc'. eauto.
+    + intros b q Hend Hbo Ht Hc'. unfold ended in Hend. rewrite Hsp in Hend. rewrite Hmb in Ht. rewrite Hms in Hc'.
+      exact (H2 b q Hend Hbo Ht Hc').
     + intros b Hi Hbe. rewrite Hbp in Hbe. rewrite Hmb, Hbc. apply Hin in Hi. auto.
 Qed.
 
@@ -320,7 +327,8 @@ Proof.
     + intros b q' Hi. rewrite Hms, Hpe. auto.
   - intro Hrun. rewrite Hph in Hrun. destruct (Hn Hrun) as (H1 & H2 & H3). split; [|split].
     + intros b Hbo Ht. rewrite Hmb. auto.
-    + intros b q' Hbo Ht Hc'. rewrite Hmb in Ht. rewrite Hms in Hc'. eauto.
+    + intros b q' Hend Hbo Ht Hc'. unfold ended in Hend. rewrite Hsp in Hend. rewrite Hmb in Ht. rewrite Hms in Hc'.
+      exact (H2 b q' Hend Hbo Ht Hc').
     + intros b Hi Hbe. rewrite Hbp in Hbe. rewrite Hmb, Hbc. apply Hin in Hi. auto.
 Qed.
 
@@ -382,11 +390,11 @@ Proof.
         exfalso. apply Hne. now rewrite H5, Hb0.
   - intro Hrun'. rewrite Hph in Hrun'. destruct (Hn Hrun') as (H1 & H2 & H3). split; [|split].
     + intros b Hbo Ht. rewrite Hmb. auto.
-    + intros b q' Hbo Ht Hc'. rewrite Hmb in Ht.
+    + intros b q' Hend Hbo Ht Hc'. unfold ended in Hend. rewrite Hsp in Hend. rewrite Hmb in Ht.
       destruct (Nat.eq_dec b cb) as [->|Hne]; [destruct (Nat.eq_dec q' q) as [->|Hne]|].
       * destruct Hkind as [[_ ->]|(qs & rest & Hrec & _)]; [exact Hopen|congruence].
-      * rewrite Hms in Hc' by (intro E'; injection E' as E'; congruence). eauto.
-      * rewrite Hms in Hc' by (intro E'; injection E' as E' _; congruence). eauto.
+      * rewrite Hms in Hc' by (intro E'; injection E' as E'; congruence). exact (H2 _ _ Hend Hbo Ht Hc').
+      * rewrite Hms in Hc' by (intro E'; injection E' as E' _; congruence). exact (H2 _ _ Hend Hbo Ht Hc').
     + intros b Hi Hbe. rewrite Hbp in Hbe. rewrite Hmb, Hbc. apply Hin in Hi. auto.
 Qed.
 
@@ -438,11 +446,11 @@ Proof.
         exfalso. apply Hne. now rewrite H5, Hb0.
   - intro Hrun'. rewrite Hph in Hrun'. destruct (Hn Hrun') as (H1 & H2 & H3). split; [|split].
     + intros b Hbo Ht. rewrite Hmb. auto.
-    + intros b q' Hbo Ht Hc'. rewrite Hmb in Ht.
+    + intros b q' Hend Hbo Ht Hc'. unfold ended in Hend. rewrite Hsp in Hend. rewrite Hmb in Ht.
       destruct (Nat.eq_dec b cb) as [->|Hne]; [destruct (Nat.eq_dec q' q) as [->|Hne]|].
       * contradiction.
-      * rewrite Hms in Hc' by (intro E'; injection E' as E'; congruence). eauto.
-      * rewrite Hms in Hc' by (intro E'; injection E' as E' _; congruence). eauto.
+      * rewrite Hms in Hc' by (intro E'; injection E' as E'; congruence). exact (H2 _ _ Hend Hbo Ht Hc').
+      * rewrite Hms in Hc' by (intro E'; injection E' as E' _; congruence). exact (H2 _ _ Hend Hbo Ht Hc').
     + intros b Hi Hbe. rewrite Hbp in Hbe. rewrite Hmb, Hbc. apply Hin in Hi. auto.
 Qed.
 
@@ -483,9 +491,10 @@ Proof.
   - intro Hrun. rewrite Hph in Hrun. destruct (Hn Hrun) as (H1 & H2 & H3). split; [|split].
     + intros b Hbo Ht. destruct (Nat.eq_dec b cb) as [->|Hne]; [|rewrite Hmb; auto].
       rewrite (Hb cb Hcur) in Ht. discriminate.
-    + intros b q Hbo Ht Hc'. rewrite Hms in Hc'. destruct (Nat.eq_dec b cb) as [->|Hne]; [|rewrite Hmb in Ht; eauto].
+    + intros b q Hend Hbo Ht Hc'. unfold ended in Hend. rewrite Hsp in Hend. rewrite Hms in Hc'.
+      destruct (Nat.eq_dec b cb) as [->|Hne]; [|rewrite Hmb in Ht by exact Hne; exact (H2 _ _ Hend Hbo Ht Hc')].
       rewrite Hnew in Ht. destruct stt; try discriminate; try contradiction.
-      destruct (H3 cb Hcur Hcond) as [Hnt _]. eauto.
+      destruct (H3 cb Hcur Hcond) as [Hnt _]. exact (H2 _ _ Hend Hbo Hnt Hc').
     + intros b Hi Hbe. rewrite Hbp in Hbe. apply Hin in Hi. destruct (H3 b Hi Hbe) as [Hnt Hca].
       assert (b = cb) by (destruct Hi as [[_ Hi] _]; now rewrite <- Hi). subst b.
       rewrite Hnew, Hbc. split; [|exact Hca].
@@ -536,16 +545,17 @@ Proof. intro Hi. apply inv_keep; [exact Hi|]. split; [unfold same_ctl; simpl; au
 
 (* the state chain left the blocks (or was never there): nothing of the block-level invariant is at stake *)
 Lemma inv_out r s' :
-  Inv r -> r_ph r = RRun -> s_ph s' <> PBlocks -> Inv (with_s r s').
+  Inv r -> r_ph r = RRun -> s_ph s' <> PBlocks -> ended (with_s r s') \/ ~ ended r -> Inv (with_s r s').
 Proof.
-  intros [Hc Hl Hb Hs Hr Hn] Hrun Hout.
+  intros [Hc Hl Hb Hs Hr Hn] Hrun Hout Hend.
   assert (Hno : forall b, ~ in_blocks (with_s r s') b) by (intros b [[H _] _]; simpl in H; contradiction).
   constructor; simpl; auto.
   - intros b Hi. exfalso. eapply Hno; eauto.
   - intros b q x Hi. exfalso. eapply Hno; eauto.
   - intros todo Ht. congruence.
-  - intros _. destruct (Hn Hrun) as (H1 & H2 & H3). split; [exact H1|]. split; [exact H2|].
-    intros b Hi. exfalso. eapply Hno; eauto.
+  - intros _. destruct (Hn Hrun) as (H1 & H2 & H3). split; [exact H1|]. split.
+    + intros b q Hne. destruct Hend as [He|He]; [contradiction|]. exact (H2 b q He).
+    + intros b Hi. exfalso. eapply Hno; eauto.
 Qed.
 
 Lemma handle_start d r a r' :
@@ -607,7 +617,7 @@ Proof.
   destruct (all_flushed sh r && quiet d sh (r_I r) (mget r)); [|discriminate].
   apply option_map_some in H' as (s' & H & ->). unfold h_release in H.
   match type of H with (if ?c then _ else _) = _ => destruct c; [|discriminate] end. injection H as <-.
-  apply inv_out; [exact Hi|exact Ep|simpl; discriminate].
+  apply inv_out; [exact Hi|exact Ep|simpl; discriminate|left; right; reflexivity].
 Qed.
 
 (* ---- EvWrite ---- *)
@@ -809,7 +819,12 @@ Proof.
     + intros todo Ht. discriminate.
     + intros _. split; [|split].
       * intros b0 Hb Ht. rewrite Hmg, Hmb by exact Hb. eapply (rs_block RS); eauto.
-      * intros b0 q Hsq Ht Hc. rewrite Hmg in Ht, Hc.
+      * intros b0 q Hend Hsq Ht Hc. rewrite Hmg in Ht, Hc.
+        assert (Hpt : is_terminal (pln_st (r_fails r)) = false).
+        { unfold ended in Hend. simpl in Hend.
+          assert (Hmp : mst m OPlan = pln_st (r_fails r)).
+          { unfold m, mst, pln_st, finished_mem, finish_mem. rewrite over_cons_same. now rewrite Hpl. }
+          rewrite Hmp in Hend. destruct (pln_st (r_fails r)); try reflexivity; exfalso; apply Hend; left; reflexivity. }
         assert (Hb : block_of sh b0 <> None) by (unfold seq_of in Hsq; destruct (block_of sh b0); [discriminate|contradiction]).
         rewrite Hmb in Ht by exact Hb. rewrite Hms in Hc.
         destruct (in_dec pair_dec (b0, q) resumed) as [Hin|Hnin].
@@ -856,8 +871,9 @@ Proof.
   constructor; simpl; auto.
   - intros b q x Hi Hx. rewrite Hsq in Hx. specialize (Hs b q x (Hin _ Hi) Hx). exact Hs.
   - intros todo Ht. congruence.
-  - intros _. destruct (Hn Hrun) as (H1 & H2 & H3). split; [exact H1|]. split; [exact H2|].
-    intros b Hi Hbe'. contradiction.
+  - intros _. destruct (Hn Hrun) as (H1 & H2 & H3). split; [exact H1|]. split.
+    + intros b q _. apply H2. unfold ended. rewrite Hp. intros [E|E]; discriminate.
+    + intros b Hi Hbe'. contradiction.
 Qed.
 
 Lemma seq_init_nth m cb n q x :
@@ -873,11 +889,11 @@ Proof.
 Qed.
 
 Lemma inv_enter r s' cb' :
-  Inv r -> r_ph r = RRun -> s_ph s' = PBlocks ->
+  Inv r -> r_ph r = RRun -> ~ ended r -> s_ph s' = PBlocks ->
   (block_of sh cb' <> None -> is_terminal (mst (mget r) (OBlock cb')) = false) ->
   Inv (with_s r (with_block s' cb' (match block_of sh cb' with Some bs => rb_init bs (mget r) cb' | None => b_none end))).
 Proof.
-  intros [Hc Hl Hb Hs Hr Hn] Hrun Hp' Hnt. destruct (Hn Hrun) as (H1 & H2 & H3).
+  intros [Hc Hl Hb Hs Hr Hn] Hrun Hnend Hp' Hnt. destruct (Hn Hrun) as (H1 & H2 & H3).
   assert (Hin : forall b, in_blocks (with_s r (with_block s' cb' (match block_of sh cb' with Some bs => rb_init bs (mget r) cb' | None => b_none end))) b ->
                           b = cb' /\ block_of sh cb' <> None).
   { intros b [[_ H5] H6]. simpl in H5. subst b. auto. }
@@ -891,9 +907,9 @@ Proof.
     assert (Hsq : seq_of sh cb' q <> None).
     { unfold seq_of. rewrite Eb. apply nth_error_Some. exact Hlt. }
     destruct (mst (mget r) (OSeq cb' q)) eqn:Est; simpl; try exact Logic.I; rewrite Hrun;
-      (apply H2; [exact Hsq|exact Hnt|]); unfold mem_st; rewrite Est; intros [E|E]; discriminate.
+      (apply H2; [exact Hnend|exact Hsq|exact Hnt|]); unfold mem_st; rewrite Est; intros [E|E]; discriminate.
   - intros todo Ht. congruence.
-  - intros _. split; [exact H1|]. split; [exact H2|].
+  - intros _. split; [exact H1|]. split; [intros b q _; exact (H2 b q Hnend)|].
     intros b Hi Hbe. destruct (Hin _ Hi) as [-> Hbo]. split; [exact (Hnt Hbo)|].
     destruct (block_of sh cb'); [reflexivity|contradiction].
 Qed.
@@ -902,6 +918,9 @@ Lemma forallb_nth_done l q x : forallb s_done l = true -> nth_error l q = Some x
 Proof.
   intros H Hx. pose proof (forallb_nth _ _ _ _ H Hx) as Hd. destruct x; try discriminate. eauto.
 Qed.
+
+Lemma p_eps_not_ended s s' : p_eps sh s = Some s' -> s_ph s <> PEnd /\ s_ph s <> PReleased.
+Proof. unfold p_eps. destruct (s_ph s); intro H; try discriminate; split; discriminate. Qed.
 
 Lemma reps_inv r r1 : Inv r -> reps sh r = Some r1 -> Inv r1.
 Proof.
@@ -920,6 +939,7 @@ Proof.
   - (* a phase move of the state chain *)
     apply option_map_some in H as (s2 & H & ->). unfold rp_eps in H.
     destruct (p_eps sh (r_s r)) as [s'|] eqn:Ee; [|discriminate]. injection H as <-.
+    assert (Hnend : ~ ended r) by (destruct (p_eps_not_ended _ _ Ee) as [A B]; intros [E|E]; contradiction).
     destruct (p_eps_spec _ _ _ Ee) as [_ [Hent|[Hent Hst]]].
     + change (entered (r_s r) s') with (entered_new (r_s r) s'). rewrite Hent.
       destruct (r_enter_spec sh (mget r) s' (s_cb s')) as (cb' & -> & Hnt).
